@@ -305,6 +305,10 @@ def run_check(pid, tier="quick", seed=0, n=None, budget_s=None, workers=None, wr
     for r in done:
         res = r["res"]
         agg["status"][res["status"]] = agg["status"].get(res["status"], 0) + 1
+        if res["status"] != "ok":
+            rk = res["status"] + ":" + str(res.get("reason", ""))[:160]
+            agg.setdefault("reasons", {})
+            agg["reasons"][rk] = agg["reasons"].get(rk, 0) + 1
         for k, v in res["faults"].items():
             agg["faults"][k] = agg["faults"].get(k, 0) + v
         for k, v in res["probes"].items():
@@ -370,6 +374,7 @@ def run_check(pid, tier="quick", seed=0, n=None, budget_s=None, workers=None, wr
         "samples": samples,
         "simulated_runs": len(done),
         "run_status": agg["status"],
+        "not_ok_reasons": agg.get("reasons", {}),
         "simulated_days": int(agg["days"]),
         "simulated_years": round(agg["days"] / 365.25, 1),
         "runs_per_hour": int(len(done) / max(wall, 1e-9) * 3600),
